@@ -243,7 +243,7 @@ type tErrUnexp struct {
 // filler is a neighbour value that prints the same text under every verb.
 var filler = tFmter{"F"}
 
-var c17shapes = []string{"top", "top", "slice", "errs", "map", "field", "embed", "ptr", "safe", "unsafe", "unexported"}
+var c17shapes = []string{"top", "top", "slice", "errs", "map", "field", "embed", "ptr", "safe", "unsafe", "unexported", "unsafe-slice", "unsafe-field", "unsafe-map", "safe-slice", "safe-field"}
 
 func shapeReal(shape string, e error) interface{} {
 	switch shape {
@@ -267,6 +267,16 @@ func shapeReal(shape string, e error) interface{} {
 		return redact.Unsafe(e)
 	case "unexported":
 		return tErrUnexp{e, filler}
+	case "unsafe-slice":
+		return []interface{}{filler, redact.Unsafe(e)}
+	case "unsafe-field":
+		return tS2{redact.Unsafe(e), filler}
+	case "unsafe-map":
+		return map[interface{}]interface{}{filler: redact.Unsafe(e)}
+	case "safe-slice":
+		return []interface{}{filler, redact.Safe(e)}
+	case "safe-field":
+		return tS2{redact.Safe(e), filler}
 	}
 	panic(shape)
 }
@@ -310,6 +320,16 @@ func shapeTwin(shape string, s errSpec, e error, log *hookLog, hooked bool) inte
 	case "unsafe":
 		// the hook is bypassed: the error's plain text, fully enveloped
 		return brk{plainErr(s, e)}
+	case "unsafe-slice":
+		return []interface{}{brk{filler}, brk{plainErr(s, e)}}
+	case "unsafe-field":
+		return tS2{brk{plainErr(s, e)}, brk{filler}}
+	case "unsafe-map":
+		return map[interface{}]interface{}{brk{filler}: brk{plainErr(s, e)}}
+	case "safe-slice":
+		return []interface{}{brk{filler}, shapeTwin("safe", s, e, log, hooked)}
+	case "safe-field":
+		return tS2{shapeTwin("safe", s, e, log, hooked), brk{filler}}
 	}
 	panic(shape)
 }
@@ -369,7 +389,7 @@ func c17verbOK(shape string, d Dir) bool {
 	}
 	sharpV := d.Verb == "v" && strings.Contains(d.Flags, "#")
 	switch shape {
-	case "field", "embed", "ptr", "errs", "map":
+	case "field", "embed", "ptr", "errs", "map", "unsafe-map":
 		return !sharpV
 	}
 	return true
@@ -395,7 +415,10 @@ func c17check(w *Worker, cs *c17case, hooked bool, idx int64) {
 		if !hooked && p.Err.Class != "hErrFmter" && p.Err.Class != "hSafeFmtErr" && !stringVerb {
 			return // without hook the error prints through its own methods only under the string verbs
 		}
-		if p.Err.Class == "hSafeMsgErr" && !stringVerb && p.Shape != "unsafe" {
+		if (strings.HasPrefix(p.Shape, "unsafe-") || strings.HasPrefix(p.Shape, "safe-")) && !stringVerb && p.Err.Class != "hErrFmter" {
+			return // a wrapper inside a container: its content's structural rendering depends on the depth, which a top-level stand-in cannot reproduce
+		}
+		if p.Err.Class == "hSafeMsgErr" && !stringVerb && !strings.HasPrefix(p.Shape, "unsafe") {
 			return // a SafeMessager's text is a string: other verbs are bad verbs for it
 		}
 	}
@@ -419,7 +442,7 @@ func c17check(w *Worker, cs *c17case, hooked bool, idx int64) {
 			twinOK = false // compared by canaries and call log only
 		} else {
 			targs = append(targs, shapeTwin(p.Shape, p.Err, e, tlog, hooked))
-			if p.Shape != "unsafe" && p.Err.Class != "hSafeFmtErr" && p.Err.Class != "hSafeMsgErr" {
+			if !strings.HasPrefix(p.Shape, "unsafe") && p.Err.Class != "hSafeFmtErr" && p.Err.Class != "hSafeMsgErr" {
 				reachable++
 			}
 		}
@@ -448,7 +471,7 @@ func c17check(w *Worker, cs *c17case, hooked bool, idx int64) {
 	// canaries: with a hook, the error's own methods must not be used outside Unsafe
 	if hooked {
 		for _, ps := range cs.Pos {
-			if ps.Shape == "unsafe" || ps.Shape == "unexported" || ps.Err.Class == "nilPErr" {
+			if strings.HasPrefix(ps.Shape, "unsafe") || ps.Shape == "unexported" || ps.Err.Class == "nilPErr" {
 				continue
 			}
 			for _, kind := range []string{"ERR", "STR", "FMT", "GO"} {
@@ -523,7 +546,7 @@ func runC17(c *Ctx) {
 		wa, pa int
 	}{{"", "", 0, 0}, {"9", "", 0, 0}, {"", ".2", 0, 0}, {"*", ".*", -7, 1}}
 	for _, cl := range errClasses {
-		for _, sh := range []string{"top", "slice", "errs", "map", "field", "embed", "ptr", "safe", "unsafe", "unexported"} {
+		for _, sh := range []string{"top", "slice", "errs", "map", "field", "embed", "ptr", "safe", "unsafe", "unexported", "unsafe-slice", "unsafe-field", "unsafe-map", "safe-slice", "safe-field"} {
 			for _, v := range allVerbs {
 				for _, f := range flags {
 					for _, wp := range wps {
